@@ -297,7 +297,14 @@ func runFault(u Univ, cfg Config, mode string, seed uint64, steps int, path stri
 		}
 		if mode == "read" || rng.IntN(3) == 0 {
 			// with the faults off everything must read correctly (a background failure must not corrupt the LSM)
+			// (an operation of a background goroutine that was already in flight when the faults
+			// stopped may still deliver its injected error to a reader that joins it - e.g. a file-cache
+			// entry being initialised; an error is an allowed answer, a PERSISTENT one is not)
 			pts, rks, serr := r.scan(0)
+			for retry := 0; serr != nil && retry < 5; retry++ {
+				time.Sleep(2 * time.Millisecond)
+				pts, rks, serr = r.scan(0)
+			}
 			if serr != nil {
 				r.fail(errors.Wrap(serr, "scan after faults stopped"))
 				break
@@ -309,11 +316,21 @@ func runFault(u Univ, cfg Config, mode string, seed uint64, steps int, path stri
 			}
 		}
 		if winLen >= 8 {
+			// (through call: a sticky WAL error of an earlier fault can make even this fault-free
+			// Flush fatal - rotateWAL - and the caller's goroutine is then parked for good)
 			fc.on.Store(false)
-			if err := r.DB.Flush(); err == nil && !dead.Load() {
+			var ferr error
+			ok := call(&dead, func() { ferr = r.DB.Flush() })
+			if ok && ferr == nil && !dead.Load() {
 				t.Emit(Ev{"op": "maint", "kind": "flush"})
 				t.Emit(Ev{"op": "durable"})
 				winLen = 0
+			}
+			if dead.Load() {
+				if !crashAndReopen("fatal I/O error (sticky)") {
+					break
+				}
+				setPend(r, nil)
 			}
 		}
 	}
